@@ -346,6 +346,52 @@ pub proof fn theorem_input_text_is_senders_prefix(msg: StunMessage, k: int, n: i
     lemma_img_ge20(msg, k - 1);
     lemma_set_len_idem(p, st(msg, n), st(msg, k));
 }
+
+// ---------------------------------------------------------------- only unregistered type codes come out as `Unknown`
+// (C07/C08/C17: the precondition `decoder_made()` under which the credential mechanisms of unit cred are proved; the client
+// unit states it as a clause of its abstract decoder contract). Hypotheses: the two per-kind facts proved in unit attrs.
+pub uninterp spec fn is_unknown(a: StunAttribute) -> bool;
+//@importlemma attrs :: lemma_dec_attr_kind as axiom_dec_attr_kind
+//@importlemma attrs :: lemma_unknown_attr as axiom_unknown_attr
+pub open spec fn unknown_unregistered(s: Seq<StunAttribute>) -> bool {
+    forall|k: int| 0 <= k < s.len() ==> (is_unknown(#[trigger] s[k]) ==> !registered(s[k].spec_type()))
+}
+proof fn lemma_dec_upto_unknown(b: Seq<u8>, sts: Seq<int>, k: int, c: Option<DecoderContext>)
+    requires 0 <= k <= sts.len(),
+    ensures dec_upto(b, sts, k, c) is Some ==> unknown_unregistered(dec_upto(b, sts, k, c)->Some_0),
+    decreases k,
+{
+    if k > 0 {
+        lemma_dec_upto_unknown(b, sts, k - 1, c);
+        if dec_upto(b, sts, k, c) is Some {
+            let body = b.subrange(20, 20 + be16(b.subrange(2, 4)));
+            let st = sts[k - 1];
+            let t = tlv_type(body, st) as u16;
+            let v = body.subrange(st + 4, st + 4 + tlv_len(body, st));
+            let acc = dec_upto(b, sts, k - 1, c)->Some_0;
+            let a = attr_at(b, st, opt_unknown_data(c))->Some_0;
+            axiom_dec_attr_kind(t, v, b.subrange(0, 20 + st));
+            axiom_unknown_attr(t, if opt_unknown_data(c) { Some(v) } else { None });
+            assert(is_unknown(a) ==> !registered(a.spec_type()));
+            let r = dec_upto(b, sts, k, c)->Some_0;
+            assert(r == acc || r == acc.push(a));
+            assert forall|j: int| 0 <= j < r.len() implies (is_unknown(#[trigger] r[j]) ==> !registered(r[j].spec_type())) by {
+                if r == acc.push(a) && j == acc.len() { assert(r[j] == a); } else { assert(r[j] == acc[j]); }
+            }
+        }
+    }
+}
+// props: C07 C08 C17
+pub proof fn theorem_unknown_unregistered(b: Seq<u8>, c: Option<DecoderContext>)
+    ensures decoded(b, c) is Some ==> unknown_unregistered(decoded(b, c)->Some_0),
+{
+    if header_ok(b) && b.len() >= 20 + be16(b.subrange(2, 4)) {
+        match walk(b.subrange(20, 20 + be16(b.subrange(2, 4))), 0) {
+            Some(sts) => { lemma_dec_upto_unknown(b, sts, sts.len() as int, c); },
+            None => {},
+        }
+    }
+}
 proof fn vx_sentinel() ensures false {}
 } // verus!
 fn main() {}
